@@ -69,3 +69,32 @@ Theorem C13_glist_insert_before g l k id x : ginv g → gl_read g = Some l → g
   new ∉ g ∧ gl_apply g new = insert_at k new g ∧ gl_read (gl_apply g new) = Some (insert_at k x l).
 Proof. exact (gl_insert_before_spec g l k id x). Qed.
 Print Assumptions C13_glist_insert_before.
+
+From Crdt Require Import proofs.ListReads.
+
+(** the other read entry points see the same sequence: [iter_entries], [is_empty], [first],
+    [last]; [position_entry] / [get] find an element by its identifier where [position] reads it *)
+Theorem C13_list_reads_agree (s : clist) :
+  snd <$> l_iter_entries s = l_read s ∧ (l_is_empty s = true ↔ l_read s = []) ∧
+  l_first s = head (l_read s) ∧ l_last s = last (l_read s).
+Proof. exact (conj (l_iter_entries_read s) (conj (l_is_empty_spec s) (conj (l_first_spec s) (l_last_spec s)))). Qed.
+Print Assumptions C13_list_reads_agree.
+
+Theorem C13_list_position_entry (s : clist) id i : l_position_entry s id = Some i →
+  ∃ v, lseq s !! i = Some (id, v) ∧ l_get s id = Some v ∧ l_position s i = Some v.
+Proof. exact (l_position_entry_Some s id i). Qed.
+Print Assumptions C13_list_position_entry.
+
+Theorem C13_list_get_at_index (s : clist) i id v : NoDup (lseq s).*1 → lseq s !! i = Some (id, v) →
+  l_get s id = Some v ∧ l_position_entry s id = Some i.
+Proof. exact (l_get_lookup s i id v). Qed.
+Print Assumptions C13_list_get_at_index.
+
+Theorem C13_list_absent_identifier (s : clist) id :
+  (l_get s id = None ↔ id ∉ (lseq s).*1) ∧ (l_position_entry s id = None ↔ id ∉ (lseq s).*1).
+Proof. exact (conj (l_get_None s id) (l_position_entry_None s id)). Qed.
+Print Assumptions C13_list_absent_identifier.
+
+Theorem C13_glist_ends g : gl_first g = gl_get g 0 ∧ gl_last g = gl_get g (pred (length g)) ∧ (gl_is_empty g = true ↔ g = []).
+Proof. exact (conj (gl_first_spec g) (conj (gl_last_spec g) (gl_is_empty_spec g))). Qed.
+Print Assumptions C13_glist_ends.
